@@ -56,6 +56,7 @@ package ice
 //@   site call setSelectedPair#1 assert C03 C06 reselects-only-the-superseded-selected-pair: a.getSelectedPair() == pair && arg1 == replacement && pair.Remote == oldRemote
 //@   site call replacePairRemote#1 assert C06 replaces-only-pairs-of-the-old-remote: arg0 == pair && pair.Remote == oldRemote && arg1 == newRemote
 //@   site call setPriorityOverride#1 assert C06 keeps-its-priority: arg0 == replacement && arg1 == oldPriority
+//@   ensures C06 list-and-index-headers-stable: a.checklist == old(a.checklist) && a.pairsByID == old(a.pairsByID) && a.remoteCandidates == old(a.remoteCandidates)
 
 // The checklist and its index are replaced wholesale only when a generation ends.
 //@ enumerate C06 stores ice.Agent.checklist in createAgentBase, (*Agent).updateConnectionState, (*Agent).addPair, (*Agent).Restart
@@ -75,3 +76,83 @@ package ice
 //@   site call remoteIPFilter#1 ghost verdict := result
 //@   ensures no-filter-accepts: a.remoteIPFilter == nil ==> result
 //@   ensures accepted-only-if-the-filter-kept-the-resolved-address: a.remoteIPFilter != nil && result ==> asked && verdict
+
+// A candidate's type is fixed by its constructor.
+//@ immutable C06 ice.candidateBase.candidateType in NewCandidateHost, NewCandidatePeerReflexive, NewCandidateRelay, NewCandidateServerReflexive
+
+// Supersession of peer-reflexive twins (RFC 8838 11.4): only peer-reflexive candidates are taken out, a
+// peer-reflexive newcomer supersedes nothing, and every superseded candidate's pairs and caches are
+// re-targeted at the newcomer (never at anything else).
+//@ func removeRedundantPrflxFromSet
+//@   props C06
+//@   opt nosafety
+//@   loop 1 invariant only-peer-reflexive-candidates-are-taken-out: forall j int :: 0 <= j && j < len(replacedPrflx) ==> baseOf(replacedPrflx[j]).candidateType == CandidateTypePeerReflexive
+//@   loop 1 invariant taken-out-list-is-its-own-array: (cap(replacedPrflx) == 0 || replacedPrflx.base != set.base) && len(set) <= len(set0) && set.base == set0.base && set.off == set0.off
+//@   site call transportAddressEqual#1 assert twin-of-the-newcomer: recv == existing && arg0 == cand
+//@   ensures only-peer-reflexive-candidates-are-taken-out: forall j int :: 0 <= j && j < len(result1) ==> baseOf(result1[j]).candidateType == CandidateTypePeerReflexive
+//@   ensures never-grows: len(result0) <= len(set)
+
+// The two helpers of a supersession touch nothing but the activity stamps of the newcomer and the
+// source caches of the local candidates.
+//@ func copyCandidateActivity
+//@   props C06
+//@   opt nosafety
+//@   modifies fam:H_ice.candidateBase.lastSent*, fam:H_ice.candidateBase.lastReceived*
+//@ func (*Agent).replaceRemoteInLocalCaches
+//@   props C06
+//@   opt nosafety
+//@   modifies fam:H_ice.candidateBase.remoteCandidateCaches*
+
+//@ func (*Agent).replaceRedundantPeerReflexiveCandidates
+//@   props C06
+//@   opt nosafety
+//@   requires a.pairsByID != nil
+//@   ensures a-peer-reflexive-newcomer-supersedes-nothing: cand.Type() == CandidateTypePeerReflexive ==> result == set && unchangedExcept()
+//@   site call removeRedundantPrflxFromSet#1 assert arg0 == set && arg1 == cand
+//@   loop 1 invariant superseded-are-peer-reflexive: forall j int :: 0 <= j && j < len(replacedPrflx) ==> baseOf(replacedPrflx[j]).candidateType == CandidateTypePeerReflexive
+//@   loop 1 invariant headers-stable: a.checklist == old(a.checklist) && a.pairsByID == old(a.pairsByID) && a.remoteCandidates == old(a.remoteCandidates)
+//@   site call replaceRemoteInPairs#1 assert retargets-the-superseded-candidate-at-the-newcomer: arg1 == oldRemote && arg2 == cand
+//@   site call replaceRemoteInPairs#1 assert only-peer-reflexive-candidates-are-superseded: baseOf(arg1).candidateType == CandidateTypePeerReflexive
+//@   site call replaceRemoteInLocalCaches#1 assert caches-follow: arg1 == oldRemote && arg2 == cand
+//@   ensures headers-stable: a.checklist == old(a.checklist) && a.pairsByID == old(a.pairsByID) && a.remoteCandidates == old(a.remoteCandidates) && len(a.checklist) == old(len(a.checklist))
+
+// Remote insertion (C06): a refused candidate leaves no trace; a candidate Equal to a stored one is
+// accepted without storing or pairing anything; a new one goes last into the set of its own network
+// type and is paired only with the current local candidates of that type, only where findPair found
+// no pair, and never when it is TCP-passive (those are dialled, not paired).
+//@ func (*Agent).addRemoteCandidate
+//@   props C06
+//@   opt nosafety
+//@   requires a.pairsByID != nil
+//@   ghostvar dup bool = false
+//@   ghostvar found *CandidatePair = nil
+//@   ghostvar searched bool = false
+//@   site call Equal#1 assert compares-stored-candidates-with-the-new-one: arg0 == cand
+//@   site call Equal#1 ghost dup := result
+//@   loop 1 invariant no-duplicate-so-far: !dup
+//@   site call replaceRedundantPeerReflexiveCandidates#1 assert supersession-only-for-a-new-candidate: !dup && arg2 == cand
+//@   site call findPair#1 ghost searched := true
+//@   site call findPair#1 ghost found := result
+//@   site call findPair#1 assert looks-for-exactly-the-pair-it-would-add: arg1 == localCandidate && arg2 == cand
+//@   site call addPair#1 assume id-space-not-exhausted: a.nextPairID < 18446744073709551615
+//@   site call addPair#1 assert no-pair-is-listed-twice: searched && found == nil
+//@   site call addPair#1 assert pairs-the-new-remote-with-a-current-local-of-its-network-type: arg1 == localCandidate && arg2 == cand && !dup
+//@   ghostvar kind TCPType = TCPTypeUnspecified
+//@   site call TCPType#2 assert asks-the-new-candidate: recv == cand
+//@   site call TCPType#2 ghost kind := result
+//@   site call addPair#1 assert passive-tcp-remotes-are-dialled-not-paired: kind != TCPTypePassive
+//@   loop 2 invariant index-stays: a.pairsByID != nil
+//@   loop 2 invariant still-no-duplicate: !dup
+//@   ensures refused-leaves-no-trace: !result ==> a.remoteCandidates[cand.NetworkType()] == old(a.remoteCandidates[cand.NetworkType()]) && len(a.checklist) == old(len(a.checklist)) && len(a.remoteCandidates) == old(len(a.remoteCandidates))
+//@   ensures duplicate-is-accepted-without-a-second-copy: dup ==> result && a.remoteCandidates[cand.NetworkType()] == old(a.remoteCandidates[cand.NetworkType()]) && len(a.checklist) == old(len(a.checklist))
+//@   ensures accepted-new-candidate-is-stored-under-its-network-type: result && !dup ==> has(a.remoteCandidates, cand.NetworkType()) && len(a.remoteCandidates[cand.NetworkType()]) >= 1
+//@   ensures accepted-new-candidate-is-stored-last: result && !dup ==> a.remoteCandidates[cand.NetworkType()][len(a.remoteCandidates[cand.NetworkType()]) - 1] == cand
+
+// TCP-active remote candidates are never handed to the agent loop; the only callers of the insertion are
+// the public entry point (two paths) and the peer-reflexive discovery of handleInboundRequest.
+//@ func (*Agent).AddRemoteCandidate
+//@   props C06
+//@   opt nosafety
+//@   site call AddRemoteCandidate$1#1 assert tcp-active-is-never-queued: cand != nil && cand.TCPType() != TCPTypeActive
+//@   site call resolveAndAddMulticastCandidate#1 assert tcp-active-is-never-resolved: cand.TCPType() != TCPTypeActive
+//@ enumerate C06 calls ice.(*Agent).addRemoteCandidate in (*Agent).AddRemoteCandidate, (*Agent).resolveAndAddMulticastCandidate, (*Agent).handleInboundRequest
